@@ -115,7 +115,15 @@ class SqlParseColumn(Column):
                 source_columns = [
                     ColumnQualifierTuple(
                         src_col.raw_name,
-                        src_col.parent.raw_name if src_col.parent else None,
+                        # a table read with an explicit schema keeps it: the bare name would land in the default schema
+                        (
+                            str(src_col.parent)
+                            if isinstance(src_col.parent, Table)
+                            and src_col.parent.schema
+                            else src_col.parent.raw_name
+                        )
+                        if src_col.parent
+                        else None,
                     )
                     for src_col in src_cols
                 ]
